@@ -9,7 +9,7 @@ from typing import Any, Dict, List, Optional
 from .common import Rec, tlax
 
 VTYPES_ALL = ["int", "str", "float", "bool", "tuple", "list", "dict", "none", "date",
-              "purepath", "namedtuple", "dataclass", "tuplelist"]
+              "purepath", "namedtuple", "dataclass", "tuplelist", "relpath", "dataclass_local"]
 # number of distinct values available per type minus one
 VMAX = {"bool": 1, "none": 1, "tuplelist": 1}
 
@@ -190,6 +190,14 @@ def core_shapes() -> List[Shape]:
         reads={"f2": ["v1"], "f4": ["v2"]},
         vtype={"v1": "int", "v2": "int"}, tags=["runtime-multiline", "siblings"]))
 
+    # s_rtchain: two plain helpers, then a keep whose run-time argument is computed from their results
+    S.append(Shape(
+        "rtchain", "f1",
+        {"f1": [call("f2"), call("f3"), keep("/c/r", "f4", "runtime"), keep("/c/k", "f5")],
+         "f2": [], "f3": [], "f4": [], "f5": []},
+        reads={"f2": ["v1"], "f3": ["v2"], "f5": ["v3"]},
+        vtype={"v1": "int", "v2": "int", "v3": "int"}, tags=["runtime-after-two-helpers"]))
+
     # s_shared: one kept node used from two parents (shared sub-node), higher-order reference
     S.append(Shape(
         "shared", "f1",
@@ -271,6 +279,12 @@ def load_shapes() -> List[Shape]:
         {"f1": [], "f3": [keep("/g/p5", "f5")], "f5": [call("f4")], "f4": [load("/g/p1")]},
         reads={"f1": ["v1"], "f4": ["v2"]}, vtype={"v1": "int", "v2": "int"},
         dpath={"f1": "/g/p1"}, root2="f3", tags=["producer-earlier-evaluation", "load-nested-helper"]))
+    # a kept reader that loads the same path twice in its own body
+    S.append(Shape(
+        "ld_twice", "f1",
+        {"f1": [call("f2"), call("f3")], "f2": [], "f3": [load("/t/p2"), load("/t/p2")]},
+        reads={"f2": ["v1"], "f3": ["v2"]}, vtype={"v1": "int", "v2": "int"},
+        dpath={"f2": "/t/p2", "f3": "/t/p3"}, tags=["load-same-path-twice", "load-in-kept", "producer-datafun"]))
     # the producer is kept INSIDE a kept root (root 1); the reader is a separate pipeline (root 2)
     S.append(Shape(
         "ld_inner_producer", "f1",
